@@ -994,6 +994,11 @@ func c10RoundTrip(c c10RT) (key, detail, sig string, stream []byte, err error) {
 	if subPath != "" {
 		what += " leaf=" + subPath
 	}
+	// If the real header parser hands back a body that is not the client's body and that body
+	// could stall kmsg (see c10SpinGuard), it is not decoded: the misalignment is the verdict.
+	if got, misaligned := c10BodySplit(frame[4:], body); misaligned && c10SpinPattern(got) {
+		return "roundtrip-body-misaligned:" + hk, fmt.Sprintf("ParseRequestHeader returned a %d-byte body, the client's body has %d bytes, for %s", len(got), len(body), what), sig + "misaligned", frame, nil
+	}
 	res := c10Drive(frame, c.mode)
 	switch {
 	case res.PanicKey != "":
@@ -1030,6 +1035,19 @@ func c10RoundTrip(c c10RT) (key, detail, sig string, stream []byte, err error) {
 		return "roundtrip-body-mismatch:" + hk, "parsed request differs structurally from the normalised original for " + what, sig + "bodystruct", frame, nil
 	}
 	return "", "", sig + "same", frame, nil
+}
+
+func c10BodySplit(payload, body []byte) (got []byte, misaligned bool) {
+	defer func() {
+		if recover() != nil {
+			got, misaligned = nil, false // the full drive classifies the panic
+		}
+	}()
+	_, rest, err := ParseRequestHeader(payload)
+	if err != nil {
+		return nil, false
+	}
+	return rest, !bytes.Equal(rest, body)
 }
 
 func c10PhaseRoundTrip(t *testing.T, rep *vh.Report, agg *c10Agg, pairs []c10KV, thorough bool, deadline time.Time, ord *int64) {
